@@ -399,6 +399,25 @@ def random_history(fx, rnd, tmp, length):
     return w
 
 
+def scripted_history(fx, tmp, k):
+    """what a simulation does with its training screen, spelled out: split, then two save / load round trips (ids and mappings must come
+    back unchanged both times), a reveal through the command line, another reload, a save of the test screen"""
+    w = World(fx, tmp)
+    tr = w.scr["train"]
+    un = [p for p in tr.plates if not p.is_observed]
+    tot = sum(math.ceil(p.size * fx.fn / fx.fd) for p in un)
+    steps = ([{"op": "split"}] if 0 < tot < tr.size else []) + [
+        {"op": "save", "h": "train", "p": 1}, {"op": "load", "h": "train", "p": 1}, {"op": "save", "h": "train", "p": 2}, {"op": "load", "h": "train", "p": 2},
+        {"op": "cli_reveal", "p": 2, "q": 1, "S": [k % 3]}, {"op": "load", "h": "train", "p": 1 if k % 2 else 2}, {"op": "save", "h": "train", "p": 1},
+        {"op": "load", "h": "train", "p": 1}, {"op": "cli_meta", "p": 1}]
+    for e in steps:
+        if e["op"] == "cli_reveal" and not w.fproj[e["p"]]["live"]:
+            continue
+        if not w.do(dict(e), rng_seed=1000 + k):
+            break
+    return w
+
+
 def replay_path(fx, path, tmp):
     w = World(fx, tmp)
     for e in path:
@@ -504,6 +523,8 @@ def run_lifecycle(ctx, focus):
             for h in pick:
                 w = replay_path(fx, h, tmp)
                 worlds.append(w)
+            for k_ in range(3 if ctx.quick else 12):
+                worlds.append(scripted_history(fx, tmp, k_))
             from harness.util import verbose_logging
             for k_ in range(n_random):
                 if k_ % 2:           # every other history with debug logging on: nothing may depend on how verbose the run is
